@@ -41,22 +41,22 @@ func (c09) Assumptions() []string {
 
 type J struct{ n int64 }
 
-func (j *J) Add(a, b int) int          { atomic.AddInt64(&j.n, 1); return a + b }
-func (j *J) Val(x int) (int, error)    { atomic.AddInt64(&j.n, 1); return x + 1, nil }
-func (j *J) Err(x int) error           { atomic.AddInt64(&j.n, 1); return errors.New("bad x") }
-func (j *J) Both(x int) (int, error)   { atomic.AddInt64(&j.n, 1); return 7, errors.New("both") }
-func (j *J) Nop()                      { atomic.AddInt64(&j.n, 1) }
+func (j *J) Add(a, b int) int             { atomic.AddInt64(&j.n, 1); return a + b }
+func (j *J) Val(x int) (int, error)       { atomic.AddInt64(&j.n, 1); return x + 1, nil }
+func (j *J) Err(x int) error              { atomic.AddInt64(&j.n, 1); return errors.New("bad x") }
+func (j *J) Both(x int) (int, error)      { atomic.AddInt64(&j.n, 1); return 7, errors.New("both") }
+func (j *J) Nop()                         { atomic.AddInt64(&j.n, 1) }
 func (j *J) Str(s string) (string, error) { atomic.AddInt64(&j.n, 1); return s, nil }
 
 type elem struct {
-	Raw      string
-	Kind     string
-	IDRaw    string // "" absent
-	IDKind   string // absent null string number invalid
-	Runs     int    // handler executions expected
-	Expect   string // "result" "error" "none" "optional-error"
-	Code     int    // expected error code, 0 = any
-	Result   string // expected result JSON ("" = don't care)
+	Raw    string
+	Kind   string
+	IDRaw  string // "" absent
+	IDKind string // absent null string number invalid
+	Runs   int    // handler executions expected
+	Expect string // "result" "error" "none" "optional-error"
+	Code   int    // expected error code, 0 = any
+	Result string // expected result JSON ("" = don't care)
 }
 
 var idStrings = []string{`"a"`, `""`, `"é\n\"q\""`, `"😀"`, `"123"`, `"null"`, `"with space"`, `" "`}
@@ -223,12 +223,12 @@ func (s *c09Srv) post(body string, via int) (string, int) {
 }
 
 type respObj struct {
-	raw     map[string]json.RawMessage
-	id      string
-	hasRes  bool
-	hasErr  bool
-	code    int
-	result  string
+	raw    map[string]json.RawMessage
+	id     string
+	hasRes bool
+	hasErr bool
+	code   int
+	result string
 }
 
 // parseResp checks the structural rules for one response object.
